@@ -23,7 +23,7 @@ TARGETS = [_M + m for m in ('__setitem__', '__getitem__', '__delitem__', 'pop', 
                             '_get_link_and_move_to_front_of_ll', '_set_key_and_add_to_front_of_ll', '_set_key_and_evict_last_in_ll',
                             '_remove_from_ll')] + ['boltons.cacheutils.LRU.__getitem__']
 BOUNDS = {
-    'quick': {'threads': 2, 'operations_per_thread': 1, 'context_switches': '<= 2 (any choice points)', 'max_size': '1..2', 'initial_entries': '0..2',
+    'quick': {'threads': 2, 'operations_per_thread': '1 (a few obligations: 2 on one thread)', 'on_miss': 'absent; a loader returning a fresh value per call in separate obligations', 'context_switches': '<= 2 (any choice points)', 'max_size': '1..2', 'initial_entries': '0..2',
               'operation pairs': 'every operation paired with [] = and with itself, LRU; [] = pairs also on LRI'},
     'thorough': {'operation pairs': 'all unordered pairs, both classes', 'context_switches': '<= 3'},
 }
@@ -108,19 +108,54 @@ def probe_order(c, setter, ms):
     return tuple(k.i for k in order)
 
 
-def outcome_conc(Co, ms, init, ops, first, switches, record=None):
+def make_on_miss():
+    """user loader: every call returns a fresh value, so the number and order of calls is visible in the results"""
+    calls = []
+
+    def on_miss(key):
+        calls.append(key)
+        return ('made', len(calls))
+    return on_miss
+
+
+def thread_gen(c, oplist):
+    """one logical thread: its operations in program order; a KeyError ends that operation, not the thread"""
+    out = []
+    for o in oplist:
+        try:
+            r = yield from co_op(c, *o)
+            out.append(('ok', _norm(r)))
+        except KeyError:
+            out.append(('KeyError', None))
+    return tuple(out)
+
+
+def real_thread_fn(c, oplist):
+    out = []
+    for o in oplist:
+        try:
+            out.append(('ok', _norm(real_op(c, *o))))
+        except KeyError:
+            out.append(('KeyError', None))
+    return tuple(out)
+
+
+def outcome_conc(Co, ms, init, threads, first, switches, record=None, onmiss=0):
     c = Co.__new__(Co)
-    Co.__init__(c, max_size=ms)
+    if onmiss:
+        Co.__init__(c, max_size=ms, on_miss=make_on_miss())
+    else:
+        Co.__init__(c, max_size=ms)
     for k, v in init:
         coro.drive(c.__setitem__(k, v))
-    gens = [co_op(c, *o) for o in ops]
+    gens = [thread_gen(c, oplist) for oplist in threads]
     res, dead = coro.run_concurrent(c._lock, gens, first, switches, record=record)
     if dead:
         return ('deadlock',), c
     contents = sorted((k.i, repr(v)) for k, v in dict.items(c))
     size_ok = len(c) <= ms
     order = probe_order(c, lambda cc, k, v: coro.drive(cc.__setitem__(k, v)), ms)
-    return (tuple((r[0], _norm(r[1])) for r in res), tuple(contents), size_ok, order), c
+    return (tuple((r[0], r[1]) for r in res), tuple(contents), size_ok, order), c
 
 
 def _norm(v):
@@ -131,42 +166,60 @@ def _norm(v):
     return v
 
 
-def outcome_seq(Real, ms, init, ops, order_of_threads):
-    c = Real(max_size=ms)
+def outcome_seq(Real, ms, init, threads, order_of_threads, onmiss=0):
+    """order_of_threads: a sequence of thread indexes, each thread appearing once per operation it runs"""
+    c = Real(max_size=ms, on_miss=make_on_miss()) if onmiss else Real(max_size=ms)
     for k, v in init:
         c[k] = v
-    res = [None] * len(ops)
+    res = [[] for _ in threads]
+    nxt = [0] * len(threads)
     for t in order_of_threads:
+        o = threads[t][nxt[t]]
+        nxt[t] += 1
         try:
-            res[t] = ('ok', real_op(c, *ops[t]))
+            res[t].append(('ok', _norm(real_op(c, *o))))
         except KeyError:
-            res[t] = ('KeyError', None)
+            res[t].append(('KeyError', None))
     contents = sorted((k.i, repr(v)) for k, v in dict.items(c))
     order = probe_order(c, lambda cc, k, v: cc.__setitem__(k, v), ms)
-    return (tuple((r[0], _norm(r[1])) for r in res), tuple(contents), len(c) <= ms or True, order)
+    return (tuple(('ok', tuple(r)) for r in res), tuple(contents), True, order)
 
 
-def _real_thread_check(ci, ms, init, ops, first, switch_set, model_out):
+def thread_orders(lens):
+    """all interleavings of the threads' operations that respect each thread's own order"""
+    if not any(lens):
+        return [()]
+    out = []
+    for t in range(len(lens)):
+        if lens[t]:
+            rest = list(lens)
+            rest[t] -= 1
+            out.extend((t,) + o for o in thread_orders(rest))
+    return out
+
+
+def _real_thread_check(ci, ms, init, threads, first, switch_set, model_out, onmiss=0):
     """replay interpreter only: force the model's event order on real threads running the untransformed class"""
     Co = classes(())[ci]
     record = []
-    out, cmodel = outcome_conc(Co, ms, init, ops, first, lambda n: n in switch_set, record=record)
+    out, cmodel = outcome_conc(Co, ms, init, threads, first, lambda n: n in switch_set, record=record, onmiss=onmiss)
     Real = [cu.LRI, cu.LRU][ci]
 
     def make_cache():
-        c = Real(max_size=ms)
+        c = Real(max_size=ms, on_miss=make_on_miss()) if onmiss else Real(max_size=ms)
         for k, v in init:
             c[k] = v
         return c
-    fns = [(lambda cc, o=o: real_op(cc, *o)) for o in ops]
+    fns = [(lambda cc, ol=ol: real_thread_fn(cc, ol)) for ol in threads]
     cache, res, stuck, consumed = coro.real_thread_replay(cu, make_cache, fns, record, timeout=3.0)
-    real_res = tuple((r[0] if r else 'none', _norm(r[1]) if r else None) for r in res)
+    real_res = tuple((r[0] if r else 'none', r[1] if r else None) for r in res)
     real_contents = tuple(sorted((k.i, repr(v)) for k, v in dict.items(cache)))
     return (real_res == out[0] and real_contents == out[1]), {'events': len(record), 'consumed': consumed, 'stuck': stuck,
                                                                'real_results': real_res, 'real_contents': real_contents}
 
 
-def linearizable(ci: int, ms: int, n: int, k0: int, k1: int, opa: int, ka: int, opb: int, kb: int, s0: int, s1: int, s2: int, s3: int) -> bool:
+def linearizable(ci: int, ms: int, n: int, k0: int, k1: int, opa: int, ka: int, opb: int, kb: int, s0: int, s1: int, s2: int, s3: int,
+                 ka2: int = 0) -> bool:
     """
     pre: 1 <= ms <= 2 and 0 <= n <= 2 and 0 <= s0 <= 1 and -1 <= s1 and s1 < s2 and s2 < s3 and s3 <= 60
     post: _
@@ -175,12 +228,16 @@ def linearizable(ci: int, ms: int, n: int, k0: int, k1: int, opa: int, ka: int, 
     mutant = tuple(pinval('mutant', ()))
     opa = pin('opa', opa, 0, len(OPS) - 1)
     opb = pin('opb', opb, 0, len(OPS) - 1)
+    opa2 = pinval('opa2')                 # optional second operation of thread A (program order: opa, then opa2)
+    onmiss = pinval('onmiss', 0)          # cache built with an on_miss loader
     ms = cz(ms, 1, 2)
     n = cz(n, 0, 2)
     nsw = pinval('switches', 2)
-    ks = labels([k0, k1][:n] + [ka, kb])
+    ks = labels([k0, k1][:n] + [ka, kb] + ([ka2] if opa2 is not None else []))
     init = [(K(ks[i]), 10 + i) for i in range(n)]
-    ops = [(OPS[opa], K(ks[n]), 'A'), (OPS[opb], K(ks[n + 1]), 'B')]
+    ops = [[(OPS[opa], K(ks[n]), 'A')], [(OPS[opb], K(ks[n + 1]), 'B')]]
+    if opa2 is not None:
+        ops[0].append((OPS[opa2], K(ks[n + 2]), 'A2'))
     sw = [s1, s2, s3][:nsw]
 
     def is_switch(used):
@@ -194,28 +251,28 @@ def linearizable(ci: int, ms: int, n: int, k0: int, k1: int, opa: int, ka: int, 
     if 'crosshair' in sys.modules:
         s0 = cz(s0, 0, 1)
     with notrace():
-        return _lin_body(ci, mutant, ms, n, init, ops, s0, sw, is_switch, opa, opb)
+        return _lin_body(ci, mutant, ms, n, init, ops, s0, sw, is_switch, opa, opb, onmiss)
 
 
-def _lin_body(ci, mutant, ms, n, init, ops, s0, sw, is_switch, opa, opb):
+def _lin_body(ci, mutant, ms, n, init, ops, s0, sw, is_switch, opa, opb, onmiss=0):
     Co = classes(mutant)[ci]
-    out, _c = outcome_conc(Co, ms, init, ops, s0, is_switch)
+    out, _c = outcome_conc(Co, ms, init, ops, s0, is_switch, onmiss=onmiss)
     Real = [cu.LRI, cu.LRU][ci]
     ok = False
     seqs = []
-    for order_of_threads in ((0, 1), (1, 0)):
-        so = outcome_seq(Real, ms, init, ops, order_of_threads)
+    for order_of_threads in thread_orders([len(t) for t in ops]):
+        so = outcome_seq(Real, ms, init, ops, order_of_threads, onmiss=onmiss)
         seqs.append(so)
         if out[0] != ('deadlock',) and out[0] == so[0] and out[1] == so[1] and out[2] and out[3] == so[3]:
             ok = True
     if ok:
-        return done(True, kind='agrees', ops=(OPS[opa], OPS[opb]), ms=ms, n=n)
+        return done(True, kind='agrees', ops=tuple(tuple(o[0] for o in t) for t in ops), ms=ms, n=n)
     detail = 'ops=%r init=%r ms=%d first=%r: concurrent outcome %r matches neither sequential order %r' % (
         ops, init, ms, s0, out, seqs)
     if 'crosshair' not in sys.modules and not mutant:
         # replay interpreter: confirm on real threads running the untransformed code
         first = int(s0)
-        reproduced, info = _real_thread_check(ci, ms, init, ops, first, set(int(x) for x in sw), out)
+        reproduced, info = _real_thread_check(ci, ms, init, ops, first, set(int(x) for x in sw), out, onmiss=onmiss)
         if not reproduced:
             # the interleaving is not realisable on the real class (e.g. the real lock forbids it): not a violation
             return True
@@ -275,4 +332,14 @@ def obligations(tier):
         obs.append(Ob('linearizable', timeout=T, pins={'cls': 1, 'opa': a, 'opb': b, 'switches': 2 if q else 3}))
         if not q or (a, b) in ((0, 0), (0, 1), (0, 3)):
             obs.append(Ob('linearizable', timeout=T, pins={'cls': 0, 'opa': a, 'opb': b, 'switches': 2 if q else 3}))
+    # caches with an on_miss loader (every call returns a fresh value: a second, concurrent load is visible in the results)
+    G, S, SD, GET = OPS.index('getitem'), OPS.index('setitem'), OPS.index('setdefault'), OPS.index('get')
+    for (a, b) in ((G, G), (G, SD), (G, GET), (S, G)) if q else [(a, b) for a in (G, SD, GET) for b in range(len(OPS))]:
+        for cls in (1, 0) if (not q or (a, b) in ((G, G), (S, G))) else (1,):
+            obs.append(Ob('linearizable', timeout=T, pins={'cls': cls, 'opa': a, 'opb': b, 'switches': 2, 'onmiss': 1}))
+    # two operations in program order on one thread against one on the other (three sequential orders)
+    CL, POP, UPD, PI = OPS.index('clear'), OPS.index('pop'), OPS.index('update'), OPS.index('popitem')
+    seqs = [(CL, S, S), (S, G, S), (POP, SD, S), (UPD, PI, OPS.index('delitem'))] if q else [(a, a2, b) for a in (CL, S, POP, UPD) for a2 in (S, G, SD, PI) for b in (S, G, GET, CL)]
+    for (a, a2, b) in seqs:
+        obs.append(Ob('linearizable', timeout=T, pins={'cls': 1, 'opa': a, 'opa2': a2, 'opb': b, 'switches': 2}))
     return obs
